@@ -5758,7 +5758,9 @@ private:
         const std::size_t block_length,
         std::true_type /*is_flat*/) noexcept
     {
-        const std::size_t count = g.size();
+        // not `g.size()`: in the class of a group that is itself named `size`
+        // the injected class name hides the inherited member function
+        const std::size_t count = sbepp::get_header(g).numInGroup().value();
         if((block_length != 0) && (count > (size / block_length)))
         {
             valid = false;
